@@ -225,6 +225,8 @@ def symbolic_params(c, it: Interp, fixed: dict):
         env[nme] = core.fresh(parse_ty(t), nme)
     for g, t in c.ghost.items():
         env[g] = core.fresh(parse_ty(t), g)
+    for g, t in c.captured.items():
+        env[g] = core.fresh(parse_ty(t), g)
     return env
 
 
@@ -251,6 +253,8 @@ def verify_function(qualname: str, timeout_ms=20000, cross_check=False, only=Non
                 raise Unsupported(f"sidecar names loop/comprehension ordinals {missing} that the source no longer has")
             env = symbolic_params(c, it, fixed)
             it.ghosts = [env[g] for g in c.ghost]
+            from .values import Closure as _Closure
+            env.setdefault(fi.node.name, _Closure(fi.node, {}, name=fi.node.name, qualname=qualname))
             st = State(env)
             for g, gexpr in c.where.items():
                 st.env[g] = it.ev_contract_expr(gexpr, st)
